@@ -244,7 +244,7 @@ func (vc *VC) callFunc(st *State, call *ast.CallExpr, callee *types.Func, sig *t
 		pkgPath = origin.Pkg().Path()
 	}
 	full := origin.FullName()
-	vc.checkCallAsserts(st, call, origin, args)
+	vc.checkCallAsserts(st, call, origin, recv, args)
 	// 1. contract
 	if c := vc.w.contractFor(origin); c != nil && !c.Inline {
 		rs := vc.applyContract(st, call, c, origin, sig, recv, args)
@@ -254,6 +254,12 @@ func (vc *VC) callFunc(st *State, call *ast.CallExpr, callee *types.Func, sig *t
 	// 2. intrinsics
 	if rs, ok := vc.intrinsic(st, call, full, sig, recv, args); ok {
 		return rs
+	}
+	// a method call on the nil interface panics (context values are taken to be non-nil; a dispatched call checks it itself)
+	if recv != nil && isInterface(recvT) && pkgPath != "context" && !effectFreePkgs[pkgPath] {
+		if _, isTP := recvT.(*types.TypeParam); !isTP {
+			vc.safety(st, "nil", call, smtNot(smtEq(recv.Term, "0")))
+		}
 	}
 	if effectFreePkgs[pkgPath] {
 		vc.depsUsed["effect-free (logging/metrics/profiling): "+pkgPath] = true
@@ -294,7 +300,7 @@ func (vc *VC) callFunc(st *State, call *ast.CallExpr, callee *types.Func, sig *t
 }
 
 // checkCallAsserts: `callsite F N requires e` clauses of the function under contract that name this call.
-func (vc *VC) checkCallAsserts(st *State, call *ast.CallExpr, origin *types.Func, args []*Value) {
+func (vc *VC) checkCallAsserts(st *State, call *ast.CallExpr, origin *types.Func, recv *Value, args []*Value) {
 	// (a call inside a function literal of the function under contract is one of its calls too: callIndex decides)
 	if vc.contract == nil || len(vc.contract.CallAsserts) == 0 || vc.specMode > 0 {
 		return
@@ -352,6 +358,9 @@ func (vc *VC) checkCallAsserts(st *State, call *ast.CallExpr, origin *types.Func
 			if n := osig.Params().At(i).Name(); n != "" && n != "_" {
 				sc.names["_"+n] = args[i]
 			}
+		}
+		if recv != nil {
+			sc.names["_recv"] = recv // the receiver of a method call
 		}
 		t := vc.evalSpecBoolIn(sc, ca.Clause.Expr)
 		vc.oblige(st, "callsite", fmt.Sprintf("%s%d.%s", ca.Callee, ca.Ord, ca.Clause.Label), "callsite "+ca.Callee+" "+fmt.Sprint(ca.Ord)+" requires "+ca.Clause.Text, call.Pos(), t)
